@@ -16,7 +16,7 @@ var textPool = []string{"alpha", "Beta Gamma", "d-e_f.g", "Ünïcödé", "日本
 	"https://example.com/a/b?c=d", "MIT OR Apache-2.0", "Copyright (c) 2024 The Authors", "tab-free text with  two spaces"}
 
 // includes identifiers that merely look like the reserved, reader-generated ones
-var spdxIDPool = []string{"a", "b", "c", "pkg-1", "File.2", "X-9", "n0", "lib.z-3", "root", "Zed", "Package-autoconf", "pkg-automake--1.16", "x-auto--1", "auto", "node--7", "Document", "document", "DOCUMENTS"}
+var spdxIDPool = []string{"a", "b", "c", "pkg-1", "File.2", "X-9", "n0", "lib.z-3", "root", "Zed", "Package-autoconf", "pkg-automake--1.16", "x-auto--1", "auto", "node--7", "Document", "document", "DOCUMENTS", "NONE", "NOASSERTION"}
 
 func txt(r *rand.Rand) string { return pick(r, textPool) }
 
@@ -104,6 +104,9 @@ func spdxNode(r *rand.Rand, id string, p float64, sweep int) *sbom.Node {
 			*f = txt(r)
 		}
 	}
+	if r.Intn(12) == 0 {
+		n.Version = pick(r, []string{"NOASSERTION", "NONE", "none", "0"}) // free text that merely looks like a keyword
+	}
 	if maybe(r, p) {
 		n.LicenseConcluded = pick(r, []string{"MIT", "Apache-2.0", "NOASSERTION", "GPL-2.0-only WITH Classpath-exception-2.0"})
 	}
@@ -151,14 +154,14 @@ func spdxNode(r *rand.Rand, id string, p float64, sweep int) *sbom.Node {
 		n.ValidUntilDate = tsOf(r)
 	}
 	if maybe(r, p) {
-		n.Suppliers = []*sbom.Person{{Name: pick(r, []string{"ACME Inc", "Jane Doe", "Ünï Org"}), IsOrg: r.Intn(2) == 0}}
+		n.Suppliers = []*sbom.Person{{Name: pick(r, []string{"ACME Inc", "Jane Doe", "Ünï Org", "ACME (UK) Ltd", "Smile Corp. :)", "Open (source"}), IsOrg: r.Intn(2) == 0}}
 		if r.Intn(3) == 0 {
 			n.Suppliers[0].Email = pick(r, []string{"sbom@acme.example", "jane.doe+sbom@example.org"})
 		}
 	}
 	spdxNoise(r, n, p)
 	if maybe(r, p) {
-		n.Originators = []*sbom.Person{{Name: pick(r, []string{"Upstream Project", "John Roe"}), IsOrg: r.Intn(2) == 0}}
+		n.Originators = []*sbom.Person{{Name: pick(r, []string{"Upstream Project", "John Roe", "Project (Upstream) Team", "trailing)"}), IsOrg: r.Intn(2) == 0}}
 		if r.Intn(3) == 0 {
 			n.Originators[0].Email = "upstream@project.example"
 		}
@@ -168,7 +171,10 @@ func spdxNode(r *rand.Rand, id string, p float64, sweep int) *sbom.Node {
 
 func newDoc(r *rand.Rand) *sbom.Document {
 	d := sbom.NewDocument()
-	d.Metadata.Id = pick(r, []string{"urn:uuid:3e671687-395b-41f5-a30f-a58921a69b79", "urn:uuid:11111111-2222-3333-4444-555555555555"})
+	d.Metadata.Id = pick(r, []string{"urn:uuid:3e671687-395b-41f5-a30f-a58921a69b79", "urn:uuid:11111111-2222-3333-4444-555555555555",
+		"urn:uuid:3e671687-395b-41f5-a30f-a58921a69b79", "urn:uuid:11111111-2222-3333-4444-555555555555",
+		// the identifier is the caller's string: other spellings of a UUID and plain text are kept as they are
+		"URN:UUID:3E671687-395B-41F5-A30F-A58921A69B79", "3e671687-395b-41f5-a30f-a58921a69b79", "{3e671687-395b-41f5-a30f-a58921a69b79}", "my-serial-7"})
 	d.Metadata.Version = fmt.Sprint(1 + r.Intn(5))
 	if r.Intn(4) == 0 {
 		// document-level metadata beyond the listed properties: observed, never judged as a violation
@@ -215,6 +221,8 @@ func genSPDXDoc(r *rand.Rand, i int) *sbom.Document {
 }
 
 var cdxIDPool = []string{"root", "a", "b", "c", "d", "e", "pkg:npm/x@1", "urn:cdx:ref/2", "Ünï-ref", "ref with space", "pkg-automake--1.16", "lib-auto--2", "autoconf",
+	// path-like identifiers whose concatenations coincide ("lib" + "/" + "core/util" = "lib/core" + "/" + "util")
+	"lib", "core/util", "lib/core", "util",
 	// identifiers made by the public generator from ordinary seeds are ordinary identifiers, also when the seed mentions "auto"
 	sbom.NewNodeIdentifier("pkg:npm/autoprefixer"), sbom.NewNodeIdentifier("lib", "auto"), "protobom--x-auto--y"}
 
@@ -306,6 +314,16 @@ func genCDXDoc(r *rand.Rand, i int, v15 bool) *sbom.Document {
 			parent[ids[j]] = ids[0] // flat
 		}
 	}
+	if i%10 == 9 {
+		// identifiers that are paths of one another: the links lib > core/util and lib/core > util must stay two links
+		ids = []string{"root", "lib", "core/util", "lib/core", "util"}
+		d.NodeList.Nodes = nil
+		for _, id := range ids {
+			d.NodeList.Nodes = append(d.NodeList.Nodes, cdxNode(r, id, p, v15, i))
+		}
+		r.Shuffle(len(d.NodeList.Nodes), func(a, b int) { d.NodeList.Nodes[a], d.NodeList.Nodes[b] = d.NodeList.Nodes[b], d.NodeList.Nodes[a] })
+		parent = map[string]string{"lib": "root", "core/util": "lib", "lib/core": "root", "util": "lib/core"}
+	}
 	// edges: one edge per target or grouped per parent, then shuffled
 	byParent := map[string][]string{}
 	for c, pa := range parent {
@@ -367,7 +385,7 @@ func genFreeDoc(r *rand.Rand, i int) *sbom.Document {
 	for j, m := 0, r.Intn(2*k+2); j < m; j++ {
 		e := &sbom.Edge{Type: pick(r, types), From: pick(r, ids)}
 		key := fmt.Sprint(e.From, e.Type)
-		if seen[key] {
+		if seen[key] && i%2 == 0 { // every other document also has several edges per source and type, interleaved with others
 			continue
 		}
 		seen[key] = true
